@@ -110,15 +110,22 @@ pub fn exec(case: &Value) -> Value {
         }
         "fp" => {
             let (pos, t) = (ia(&case["pos"]), ia(&case["t"]));
+            // camera at pos * 2^psc, target at an offset t * 2^-tsc from it (all exactly representable):
+            // a nearby target seen from far away from the origin; observations are scaled back by 2^tsc
+            let psc = 2f64.powi(case.get("psc").and_then(|v| v.as_i64()).unwrap_or(0) as i32);
+            let tsc = 2f64.powi(case.get("tsc").and_then(|v| v.as_i64()).unwrap_or(0) as i32);
             let mut fp = FirstPerson::new();
-            fp.pos = vec3(pos[0] as f32, pos[1] as f32, pos[2] as f32);
-            let tgt = vec3((pos[0] + t[0]) as f32, (pos[1] + t[1]) as f32, (pos[2] + t[2]) as f32);
+            let p = |i: usize| (pos[i] as f64 * psc) as f32;
+            let q = |i: usize| (pos[i] as f64 * psc + t[i] as f64 / tsc) as f32;
+            fp.pos = vec3(p(0), p(1), p(2));
+            let tgt = vec3(q(0), q(1), q(2));
             fp.look_at(tgt);
             let m = fp.world_to_view();
             let ip = m.apply_pt(&fp.pos.to_pt().to());
             let it = m.apply_pt(&tgt.to_pt().to());
             let rows: Vec<Vec<i64>> = (0..3).map(|i| (0..4).map(|j| s(m.0[i][j])).collect()).collect();
-            vec![("M", json!(rows)), ("ipos", json!([s(ip.x()), s(ip.y()), s(ip.z())])), ("itgt", json!([s(it.x()), s(it.y()), s(it.z())]))]
+            let st = |x: f32| s((x as f64 * tsc) as f32);
+            vec![("M", json!(rows)), ("ipos", json!([st(ip.x()), st(ip.y()), st(ip.z())])), ("itgt", json!([st(it.x()), st(it.y()), st(it.z())]))]
         }
         _ => {
             // heading: azimuth with cos, sin = cx/kd, sz/kd; altitude per mode; then translate(dl)
@@ -239,7 +246,11 @@ pub fn gen(args: &Args, out: &mut dyn Write) {
             let pos: Vec<i64> = (0..3).map(|_| rng.range(-9, 9)).collect();
             let sc = rng.range(1, 3);
             emit(out, json!({"op": "fp", "pos": pos, "t": [d[0] * sc, d[1] * sc, d[2] * sc], "d2": d[3] * sc * sc,
-                             "d": ((d[3] * sc * sc) as f64).sqrt().round() as i64 * 4096}));
+                             "d": ((d[3] * sc * sc) as f64).sqrt().round() as i64 * 4096, "psc": 0, "tsc": 0, "pm": 9}));
+            // the same look direction towards a target a few 1/512 away, seen from thousands of units out
+            let far: Vec<i64> = (0..3).map(|_| rng.range(-9, 9)).collect();
+            emit(out, json!({"op": "fp", "pos": far, "t": [d[0] * sc, d[1] * sc, d[2] * sc], "d2": d[3] * sc * sc,
+                             "d": ((d[3] * sc * sc) as f64).sqrt().round() as i64 * 4096, "psc": 9, "tsc": 9, "pm": 9 * 512}));
         }
     }
     let azs: [(i64, i64, i64); 8] = [(3, 4, 5), (-4, 3, 5), (5, -12, 13), (-8, -15, 17), (1, 0, 1), (0, 1, 1), (-1, 0, 1), (0, -1, 1)];
